@@ -55,6 +55,7 @@ type Addr struct {
 	typ    types.Type
 	slice  Val
 	idx    string
+	foreign string // aElem: the slice comes from outside the function (see foreignSlice)
 	meta   bool // interior pointer to an embedded ObjectMeta: as a value it is the outer reference
 }
 
@@ -521,6 +522,14 @@ func (fc *fnCtx) store(st *state, a *Addr, v Val) {
 		fc.assume(st, fmt.Sprintf("(= %s %s)", fc.applySel(fmt.Sprintf("(%s %s)", a.hv, a.ref), a.sel), v.T))
 		fc.freezeField(st, v, a.prefix)
 	case aElem:
+		if a.foreign != "" {
+			// a write into the backing array of a slice this function did not create: visible to every other
+			// holder of the slice (slices are values in this model, so the write itself is not represented;
+			// it is excluded by this obligation instead)
+			fc.assert(st, "frame", fmt.Sprintf("frame.store-into-a-slice-not-created-here#%d", fc.site("frame.elemstore")), "false",
+				"assignment to an element of a slice obtained from "+a.foreign+": the backing array is shared with its other holders", token.NoPos)
+			return
+		}
 		unsup("store through slice element (slice aliasing is not modelled)")
 	case aPath:
 		unsup("store of big struct at %s", a.prefix)
